@@ -138,7 +138,7 @@ def run(ctx):
     # ------------------------------------------------------------------ 2. the real code
     env = {"VERIF_IN": ind}
     if not q:
-        env.update({"VERIF_C17_BLOCKS": 90, "VERIF_C17_DEEP": 120, "VERIF_C17_DEEPER": 24, "VERIF_C17_DEEPEST": 6, "VERIF_C17_SAMPLES": 5,
+        env.update({"VERIF_C17_BLOCKS": 150, "VERIF_C17_DEEP": 250, "VERIF_C17_DEEPER": 40, "VERIF_C17_DEEPEST": 10, "VERIF_C17_SAMPLES": 8,
                     "VERIF_C17_LONG": 3, "VERIF_C17_WORKERS": 8})
     res = ctx.go_driver("c17wire", "TestDriver", timeout=1500 if q else 7200, env=env)
     stats = res.pop("stats", None) or {}
